@@ -122,8 +122,23 @@ pub struct OligoRun {
 }
 
 /// Run the library once.  `ctl` (if any) is installed as the event sink for the duration.
-pub fn run_oligo(in_path: &str, out_path: &str, cfg: &OligoCfg, ctl: Option<&Arc<Controller>>) -> OligoRun {
+/// Every other run starts with a *stale, longer* file already sitting at the output path (as left by an
+/// earlier run): a correct writer replaces it completely, so nothing may survive of it.
+pub fn prepare_output(out_path: &str) {
+    static CALLS: std::sync::atomic::AtomicU64 = std::sync::atomic::AtomicU64::new(0);
+    let n = CALLS.fetch_add(1, std::sync::atomic::Ordering::Relaxed);
     let _ = std::fs::remove_file(out_path);
+    if n % 2 == 1 {
+        let mut stale = String::new();
+        for i in 0..(200 + (n % 7) * 300) {
+            stale.push_str(&format!("0.{:06} 0.250000 STALE{} 0.500000 0.125000 9.999999\n", i % 1_000_000, i));
+        }
+        let _ = std::fs::write(out_path, stale);
+    }
+}
+
+pub fn run_oligo(in_path: &str, out_path: &str, cfg: &OligoCfg, ctl: Option<&Arc<Controller>>) -> OligoRun {
+    prepare_output(out_path);
     if let Some(c) = ctl {
         c.install();
     }
@@ -239,6 +254,7 @@ pub fn check_write_log(events: &[Event], cfg: &OligoCfg, nrecs: usize, file_len:
     let rl = row_len(cfg);
     let mut holding: std::collections::HashMap<usize, u64> = std::collections::HashMap::new();
     let mut writes: Vec<(u64, u64)> = Vec::new();
+    let mut per_record: std::collections::HashMap<u64, Vec<(u64, u64)>> = std::collections::HashMap::new();
     let mut cap: Option<u64> = None;
     let mut took_total = 0u64;
     for e in events {
@@ -267,23 +283,37 @@ pub fn check_write_log(events: &[Event], cfg: &OligoCfg, nrecs: usize, file_len:
                     ));
                 }
                 if let Some(&n) = holding.get(&e.worker) {
-                    let want = hl as u64 + n * rl as u64;
-                    if pos != want {
-                        return Err((
-                            "oligo.row_offset".into(),
-                            format!("row of record {} written at offset {} instead of {} (header {} + {} x {})", n, pos, want, hl, n, rl),
-                        ));
-                    }
-                    if len != rl as u64 {
-                        return Err((
-                            "oligo.row_length".into(),
-                            format!("row of record {} is {} bytes, fixed row length is {}", n, len, rl),
-                        ));
-                    }
+                    // a row may legitimately be written in several pieces: collect them per record and
+                    // judge the union below (it must be exactly the record's slot)
+                    per_record.entry(n).or_default().push((pos, len));
                 }
                 writes.push((pos, len));
             }
             _ => {}
+        }
+    }
+    for (n, mut pieces) in per_record {
+        pieces.sort();
+        let want = hl as u64 + n * rl as u64;
+        let first = pieces[0].0;
+        if first != want {
+            return Err((
+                "oligo.row_offset".into(),
+                format!("row of record {} written at offset {} instead of {} (header {} + {} x {})", n, first, want, hl, n, rl),
+            ));
+        }
+        let mut end = first;
+        for (p, l) in &pieces {
+            if *p != end {
+                return Err(("oligo.row_offset".into(), format!("row of record {}: piece at offset {} does not continue the row (expected {})", n, p, end)));
+            }
+            end = p + l;
+        }
+        if end - first != rl as u64 {
+            return Err((
+                "oligo.row_length".into(),
+                format!("row of record {} is {} bytes, fixed row length is {}", n, end - first, rl),
+            ));
         }
     }
     let n_writes = writes.len() as u64;
